@@ -525,7 +525,12 @@ pub fn parts(doc: &XlsxDoc) -> (Vec<(String, Vec<u8>)>, ZipKnobs) {
             w.nl();
             w.open("numFmts", &format!(" count=\"{}\"", st.num_fmts.len()));
             for (id, code, _) in &st.num_fmts {
-                w.empty("numFmt", &format!(" numFmtId=\"{id}\" formatCode=\"{}\"", esc_attr(code)));
+                // attribute order is free
+                if (enc.sheet_ids / 4) % 2 == 1 {
+                    w.empty("numFmt", &format!(" formatCode=\"{}\" numFmtId=\"{id}\"", esc_attr(code)));
+                } else {
+                    w.empty("numFmt", &format!(" numFmtId=\"{id}\" formatCode=\"{}\"", esc_attr(code)));
+                }
             }
             w.close("numFmts");
         }
@@ -639,6 +644,13 @@ pub fn parts(doc: &XlsxDoc) -> (Vec<(String, Vec<u8>)>, ZipKnobs) {
             w.nl();
             w.open("definedNames", "");
             for (n, v) in &doc.defined_names {
+                // "name\u{1}k" = a sheet-scoped name (localSheetId = k): the same name may exist in several scopes
+                if let Some((name, scope)) = n.split_once('\u{1}') {
+                    w.open("definedName", &format!(" name=\"{}\" localSheetId=\"{scope}\"", esc_attr(name)));
+                    w.raw(&esc_text(v, 0));
+                    w.close("definedName");
+                    continue;
+                }
                 w.open("definedName", &format!(" name=\"{}\"", esc_attr(n)));
                 w.raw(&esc_text(v, 0));
                 w.close("definedName");
@@ -868,7 +880,12 @@ pub fn parts(doc: &XlsxDoc) -> (Vec<(String, Vec<u8>)>, ZipKnobs) {
         }
         if !sheet.merges.is_empty() {
             w.nl();
-            w.open("mergeCells", &format!(" count=\"{}\"", sheet.merges.len()));
+            // count is optional
+            if enc.sheet_ids % 3 == 2 {
+                w.open("mergeCells", "");
+            } else {
+                w.open("mergeCells", &format!(" count=\"{}\"", sheet.merges.len()));
+            }
             for m in &sheet.merges {
                 w.empty("mergeCell", &format!(" ref=\"{}\"", range_name(*m)));
             }
